@@ -11,6 +11,7 @@ import Apko.Proofs.Lemmas.FSSub
 import Apko.Proofs.Lemmas.FSWalkDir
 import Apko.Proofs.Lemmas.FSSymBit
 import Apko.Proofs.Lemmas.TarWalk
+import Apko.Proofs.Lemmas.FSPosixDemo
 import Apko.Generated.FS
 /-! C17 — the virtual file systems behave like a file system (theorems over `Model/FS.lean`) -/
 namespace Apko.C17
@@ -559,17 +560,45 @@ theorem sub_symlink_then_readlink (b : Backend) (r : Text) (fs : FS) (hi : Inv f
     (stepSub (Cfg.impl b) r (stepSub (Cfg.impl b) r fs (.symlink t p)).1 (.readlink p)).2 = .ok (.text t) :=
   FS.sub_symlink_then_readlink (Cfg.impl b) rfl r fs hi t p hok
 
-/-! ### statements kept at full strength but not proved here -/
+/-! ### Impl (lexical) resolution against POSIX resolution -/
 
-/-- Impl resolution agrees with POSIX resolution on paths and link targets without `.`/`..` whose
-relative targets are only met under link-free prefixes (unproved; the deviation class is finding F17d,
-exercised by the correspondence suite through `Cfg.spec`) -/
-def resolve_posix_partial : Prop :=
+/-- **resolve_posix_partial**: the lexical path resolution of memfs/tarfs (`Cfg.impl`: `.` and `..` looked up
+as literal names, a relative link target joined to the traversed path) gives the answer of POSIX resolution
+(`Cfg.spec`) — the same node or the same error, `ELOOP` after the same number of traversals included — on
+every path without `.`/`..` components in every state whose link targets are absolute and free of `.`/`..`.
+Proved in `Lemmas/FSPosix.lean` by enumerating the places where the two component loops branch differently
+(dot components; the start of a link target; the special cases `/` and `.`), a one-loop agreement lemma
+(`walk_agree_abs`: same node, same counter) and induction on the nesting budget (`getNodeD_agree_abs`).
+`Inv` is not needed (kept from the original statement).  Outside this domain the two differ: finding F17d
+(`resolve_posix_fails_on_dots`), exercised by the correspondence suite through `Cfg.spec`; for relative
+targets see `resolve_posix_upto_loop` below. -/
+theorem resolve_posix_partial :
   ∀ (b : Backend) (fs : FS) (p : Text), Inv fs →
     (∀ i : Nat, ∀ cmp ∈ parts (fs.node i).target, cmp ≠ dot ∧ cmp ≠ dotdot) →
     (∀ i : Nat, (fs.node i).isSymlink = true → isAbs (fs.node i).target = true) →
     (∀ cmp ∈ parts p, cmp ≠ dot ∧ cmp ≠ dotdot) →
-    getNode (Cfg.impl b) fs p = getNode (Cfg.spec b) fs p
+    getNode (Cfg.impl b) fs p = getNode (Cfg.spec b) fs p :=
+  fun b _ p _ hnd habs hp => getNode_impl_eq_spec (ci := Cfg.impl b) (cs := Cfg.spec b) rfl rfl hnd habs p hp
+
+/-- non-vacuity: a state every backend reaches (`absDemo_reachable`) with a chain of three absolute links
+`l1 → /l2 → /l3 → /a` and a dangling one; it meets every hypothesis, and both sides answer alike on a path
+through the chain (a node) and on one through the dangling link (`ENOENT`) -/
+example : (run (Cfg.impl .tarfs) FS.empty absDemoOps).1 = absDemo ∧ Inv absDemo ∧
+    (∀ i : Nat, ∀ cmp ∈ parts (absDemo.node i).target, cmp ≠ dot ∧ cmp ≠ dotdot) ∧
+    (∀ i : Nat, (absDemo.node i).isSymlink = true → isAbs (absDemo.node i).target = true) ∧
+    (∀ cmp ∈ parts "/l1/b".toList, cmp ≠ dot ∧ cmp ≠ dotdot) ∧
+    getNode (Cfg.impl .tarfs) absDemo "/l1/b".toList = .ok 2 ∧
+    getNode (Cfg.spec .tarfs) absDemo "/l1/b".toList = .ok 2 ∧
+    getNode (Cfg.impl .tarfs) absDemo "dang/y".toList = .error .notExist ∧
+    getNode (Cfg.spec .tarfs) absDemo "dang/y".toList = .error .notExist :=
+  ⟨absDemo_reachable _, absDemo_inv, absDemo_nodots, absDemo_abs, by decide, by decide, by decide, by decide,
+   by decide⟩
+
+/-- … and the domain restriction is needed: with a `..` in a link target (`a/b/up → ../c` reached through
+`l → /a/b`) the two resolutions answer differently (F17d) -/
+theorem resolve_posix_fails_on_dots :
+    getNode (Cfg.impl .memfs) dotDemo "l/up".toList ≠ getNode (Cfg.spec .memfs) dotDemo "l/up".toList := by
+  decide
 
 /-! ### ties to the source (regenerated on every run by `extract/fs.go`) -/
 
